@@ -18,6 +18,9 @@ pub enum Case {
     Slope { prob: ProbSpec, x0: f64, back: bool, method: Meth },
     /// a full run: dense solution at generated interior points vs the neighbouring step ends
     Full { prob: ProbSpec, span: Span, method: Meth, rtol: f64, atol_rel: f64, rk4_steps: f64, thetas: Vec<f64>, analytic_jac: bool, #[serde(default)] terminal_at: Option<f64> },
+    /// low-level run whose callback answers XOut (dense output on demand): inside every step the handed interpolant is
+    /// the one of the undisturbed run
+    XOut(crate::xoutrel::XCase),
 }
 
 fn interp_order(m: Meth) -> usize {
@@ -231,6 +234,7 @@ pub fn check(c: &Case) -> Outcome {
     match c {
         Case::Slope { prob, x0, back, method } => check_slope(prob, *x0, *back, *method),
         Case::Full { prob, span, method, rtol, atol_rel, rk4_steps, thetas, analytic_jac, terminal_at } => check_full(prob, span, *method, *rtol, *atol_rel, *rk4_steps, thetas, *analytic_jac, *terminal_at),
+        Case::XOut(x) => crate::xoutrel::check(x, crate::xoutrel::Aspect::Inside),
     }
 }
 
@@ -243,6 +247,7 @@ pub fn strategy() -> BoxedStrategy<Case> {
         }),
         2 => (prob_spec(5, 0.5, 8.0), prop_oneof![12 => span_mid().boxed(), 1 => span_tiny().boxed()], any_method(), log10(-9.0, -3.0), log10(-3.0, 0.0), fr(20.3, 200.9), proptest::collection::vec(fr(0.02, 0.98), 1..5), any::<bool>(), proptest::option::weighted(0.2, fr(0.2, 0.95)))
             .prop_map(|(prob, span, method, rtol, atol_rel, rk4_steps, thetas, analytic_jac, terminal_at)| Case::Full { prob, span, method, rtol, atol_rel, rk4_steps, thetas, analytic_jac, terminal_at }),
+        1 => crate::xoutrel::strategy().prop_map(Case::XOut),
     ]
     .boxed()
 }
@@ -255,7 +260,7 @@ pub fn run(ctx: &Ctx, known: &[Known]) -> Report {
     let stats = run_generated(ctx, "C07", "gen", &strategy, &check, cases, known);
     Report {
         id: "C07".into(),
-        rule: "two kinds of cases: (1) one step from exact data of an autonomous linear closed-form problem with the step interpolant probed at 19 interior thetas, step refined five times (factor 2, sqrt 2 for DOPRI5/DOP853), slope of the max-over-theta error fitted on the three smallest usable steps (RK4, RK23, DOPRI5, DOP853, Radau with fully converged Newton; both signs of h); (2) full solve_ivp runs of all six methods on general (non-autonomous, nonlinear, mixed) closed-form problems with dense output: Solution::sol at 1..4 generated interior positions of every accepted step against the exact solution (steps with h*rate > 1 skipped), allowed 10 x the larger error of the two neighbouring step ends + the C01 bound 100*kappa*naccpt*tolscale (RK4: + |y|(rate*h)^4) + rounding floor. RK4 uses a step that does not divide the span. Non-trivial = a verdict from >= 3 usable refinements, or a run with >= 3 accepted steps. Distinct = distinct canonical JSON.".into(),
+        rule: "two kinds of cases: (1) one step from exact data of an autonomous linear closed-form problem with the step interpolant probed at 19 interior thetas, step refined five times (factor 2, sqrt 2 for DOPRI5/DOP853), slope of the max-over-theta error fitted on the three smallest usable steps (RK4, RK23, DOPRI5, DOP853, Radau with fully converged Newton; both signs of h); (2) full solve_ivp runs of all six methods on general (non-autonomous, nonlinear, mixed) closed-form problems with dense output: Solution::sol at 1..4 generated interior positions of every accepted step against the exact solution (steps with h*rate > 1 skipped), allowed 10 x the larger error of the two neighbouring step ends + the C01 bound 100*kappa*naccpt*tolscale (RK4: + |y|(rate*h)^4) + rounding floor. RK4 uses a step that does not divide the span; (3) low-level runs whose SolOut callback answers ControlFlag::XOut (arbitrary abscissae at arbitrary callbacks, or equidistant printing), with the solver's dense_output flag default/true/false: every interpolant handed over is, at three interior thetas, bit-identical to the interpolant of the same step in the run whose callback answers Continue. Non-trivial = a verdict from >= 3 usable refinements, or a run with >= 3 accepted steps. Distinct = distinct canonical JSON.".into(),
         assumptions: vec!["slope thresholds RK4/RK23/Radau 3.5, DOPRI5 4.3, DOP853 6.5".into(), "the interior allowance is relative to the neighbouring step-end errors, so algorithm-inherent step-end inaccuracies (C01 finding K1) do not raise an alarm here".into()],
         min_nontrivial_frac: 0.5,
         stats,
